@@ -186,6 +186,14 @@ func genericIntrinsic(fn *ssa.Function, name string) intrinsicFn {
 		return nil
 	}
 	path := fn.Pkg.Pkg.Path()
+	// assembly kernels with a pure-Go twin in the same package (math/big: addVV -> addVV_g, ...)
+	if fn.Blocks == nil && fn.Signature.Recv() == nil {
+		if g := fn.Pkg.Func(fn.Name() + "_g"); g != nil && g.Blocks != nil && types.Identical(g.Signature, fn.Signature) {
+			return func(fr *frame, a []value) value {
+				return fr.in.callSSA(fr.caller, fr.callpos, g, a, nil)
+			}
+		}
+	}
 	switch path {
 	case polyMod + "/common/log", "log":
 		return func(fr *frame, a []value) value {
